@@ -131,10 +131,16 @@ func runSequence(d *harness.Driver, st *nodesim.Stats, seed int64, nsteps int) {
 	defer w.Destroy()
 	w.Seed = seed
 	n := 5 + rng.Intn(nsteps)
+	extended := false
 	for i := 0; i < n; i++ {
 		op := w.GenOp()
 		if !w.Step(op) {
 			return
+		}
+		if w.Broken && !extended {
+			// search mode: the sequence gets a budget of its own to reach a state in which a property fails
+			extended = true
+			n = i + 1 + 80
 		}
 	}
 }
